@@ -50,8 +50,13 @@ class C02(Prop):
     # ------------------------------------------------------------------ cases
     def cases(self, rng, tier, budget):
         yield {"op": "cycle", "args": {"spec": {"version": "0.0", "compose": F.gen_compose(rng), "pool": [], "adds": []}}}
+        n_f11 = n_f19 = 0                                  # the two known-finding streams are capped (they count as failures)
         for n in range(budget):
             r = rng.random()
+            if r >= 0.86 and r < 0.90 and n_f11 >= 10:
+                r = 0.0
+            if r >= 0.90 and r < 0.92 and n_f19 >= 6:
+                r = 0.0
             if r < 0.86:
                 spec = F.gen(rng, tier)
             elif r < 0.90:                                   # F11 stream: identity collision under a pre-1.1 header
@@ -63,11 +68,13 @@ class C02(Prop):
                 twin["checksums"] = dict((k, v[::-1] + "0") for k, v in twin["checksums"].items())
                 spec["pool"].append(twin)
                 spec["adds"].append([rng.choice([a[0] for a in spec["adds"]]), "x86_64", len(spec["pool"]) - 1])
+                n_f11 += 1
             elif r < 0.92:                                   # bool where an int is documented
                 spec = F.gen(rng, tier)
                 if not spec["pool"]:
                     continue
                 img = rng.choice(spec["pool"]); img[rng.choice(F.INT_FIELDS)] = True
+                n_f19 += 1
                 F.make_unique(spec["pool"]) if not isinstance(img["disc_number"], bool) else None
             else:                                            # the library refuses to write: one attribute out of its domain
                 spec = F.gen(rng, tier)
